@@ -32,6 +32,9 @@ FIXED = [
      _E % ('e1', 'B+', 'C-'), 'O\to1\tA+ B+', 'O\to2\tC+ B- A-', 'U\tu1\to2 C'],
     ['S\tA\t10\t*', 'S\tB\t10\t*', _E % ('e1', 'A+', 'B+'), _E % ('*', 'B-', 'A-'), _E % ('e2', 'A+', 'A+'), _E % ('*', 'B+', 'B-'),
      'O\to1\tA+ B+', 'O\to2\tA+ e1+ B+', 'O\to3\tA+ A+ B+', 'O\to4\tA+ B+ B-', 'U\tu1\te1 e2'],
+    # groups that contain themselves, directly or through another group: reported as inconsistent (F77)
+    ['S\tA\t10\t*', 'S\tB\t10\t*', _E % ('e1', 'A+', 'B+'), 'O\to1\to2+ A+', 'O\to2\to1+ A+', 'O\to3\tA+ B+', 'U\tu1\tu2 A', 'U\tu2\tu1',
+     'U\tu3\tu3 B', 'U\tu4\to3 A'],
     # a segment listed after an edge with the orientation the edge does not give it; an edge listed against its direction
     ['S\tA\t10\t*', 'S\tB\t10\t*', 'S\tC\t10\t*', _E % ('e1', 'A+', 'B+'), _E % ('e2', 'B+', 'C+'), 'O\to1\tA+ e1+ B-',
      'O\to2\tA+ e1+ B- C+', 'O\to3\tA+ e1+ B+ e2+ C+', 'O\to4\tA+ e1- B+', 'O\to5\tB- e1- A-', 'O\to6\tB- e1- A+', 'O\to7\te1+ B-',
